@@ -81,3 +81,35 @@ Theorem scratch_overlaps_sub_local :
   let main_stack := -8 in let rel := -4 in
   ~ disjoint (scratch main_stack 4, 4) (sub_local main_stack rel, 4).
 Proof. unfold disjoint. vm_compute. intros [H|H]; apply H; reflexivity. Qed.
+
+(* ---- one slot per name, of the size attribute lookup uses ---- *)
+Lemma dedupe_in : forall l seen n s, In (n, s) (dedupe seen l) ->
+  existsb (Z.eqb n) seen = false /\ first_def n l = Some s.
+Proof.
+  induction l as [|[m t] tl IH]; intros seen n s H; cbn [dedupe first_def] in *; [contradiction|].
+  destruct (existsb (Z.eqb m) seen) eqn:E.
+  - destruct (IH _ _ _ H) as [A B]. split; [exact A|]. destruct (Z.eqb_spec m n) as [->|N]; [congruence|exact B].
+  - destruct H as [H|H].
+    + injection H as -> ->. split; [exact E|]. rewrite Z.eqb_refl. reflexivity.
+    + destruct (IH _ _ _ H) as [A B]. cbn [existsb] in A. apply orb_false_iff in A as [A1 A2].
+      split; [exact A2|]. destruct (Z.eqb_spec m n) as [->|N]; [rewrite Z.eqb_refl in A1; discriminate|exact B].
+Qed.
+
+Lemma dedupe_nodup : forall l seen, NoDup (map fst (dedupe seen l)).
+Proof.
+  induction l as [|[m t] tl IH]; intros seen; cbn [dedupe]; [constructor|].
+  destruct (existsb (Z.eqb m) seen); [apply IH|]. cbn [map fst]. constructor; [|apply IH].
+  intros H. apply in_map_iff in H as ([n s] & Hn & Hi). cbn in Hn. subst n.
+  destruct (dedupe_in _ _ _ _ Hi) as [A _]. cbn [existsb] in A. rewrite Z.eqb_refl in A. discriminate.
+Qed.
+
+Theorem collect_one_slot_per_name l :
+  NoDup (map fst (dedupe [] l)) /\ forall n s, In (n, s) (dedupe [] l) -> first_def n l = Some s.
+Proof. split; [apply dedupe_nodup|]. intros n s H. apply (dedupe_in _ _ _ _ H). Qed.
+
+(* the pinned behaviour: a name redefined in a subclass with a larger format got a
+   second, too small slot *)
+Theorem collect_pinned_refuted :
+  let mro := [(1, 8); (2, 4); (1, 4)] in      (* name 1: 'Q' in the subclass, 'I' in the base class *)
+  ~ NoDup (map fst (dedupe_pinned mro)).
+Proof. intros mro H. inversion H as [|? ? N _]. apply N. cbn. auto. Qed.
